@@ -635,6 +635,26 @@ class Sim(object):
                 self.arb.ctrl.handle_message([("c%d" % (op[2] if len(op) > 2 else 0)).encode(), raw])
             elif kind == "raw":
                 self.arb.ctrl.handle_message([("c%d" % (op[2] if len(op) > 2 else 0)).encode(), bytes(op[1])])
+            elif kind == "xreq":
+                # a request for a registered command whose execute() raises an exception of the named class
+                # (classes outside Exception included): dispatch has to turn it into one error reply
+                import builtins
+                import circus.exc
+                cls = getattr(circus.exc, op[3], None) or getattr(builtins, op[3])
+                msg = op[1]
+                cmd = self.arb.ctrl.commands[str(msg.get("command")).lower()]
+
+                def boom(*a, **kw):
+                    raise cls("boom")
+                cmd.execute = boom
+                try:
+                    self.arb.ctrl.handle_message([("c%d" % op[2]).encode(), json.dumps(msg).encode()])
+                except Blocked:
+                    raise
+                except BaseException as e:          # escaped from dispatch: the loop would die or log it
+                    k.out("o raised %s" % type(e).__name__)
+                finally:
+                    del cmd.execute
             elif kind == "sig":
                 # what the SysHandler does when the signal arrives
                 if op[1] == "quit":
